@@ -241,7 +241,7 @@ def shape_trees():
     return out
 
 
-FULL = [{c: {p: [1, 2, 3] for p in PKGS} for c in CATS}]   # every category x package name of the vocabulary
+FULL = [{c: {p: [1, 2] for p in PKGS} for c in CATS}]   # every category x package name of the vocabulary
 
 
 def ladder_trees():
@@ -432,7 +432,7 @@ def make_case(m, dicts, tree):
         true_on = [c_obj(k) for k, o in sorted(uniq.items(), key=lambda kv: repr(kv[0])) if ctx.base[i].match(o)]
         opqs.append(cpair(cN(i), clist(true_on, "pobj")))
     term = cpair(cpair(clist(ctx.infos, "leafdesc"), preds, clist(opqs, "N * list pobj")),
-                 clist([c_repo(d) for d in dicts], "repo"), rcoq)
+                 "full_repos" if dicts is FULL else clist([c_repo(d) for d in dicts], "repo"), rcoq)
     return robj, term
 
 
@@ -469,7 +469,13 @@ def main(chk: Check):
              {"a": {"x": [2], "y": [1]}, "ba": {"x": [1]}}]
     for i, t in enumerate(shapes):
         descs.append(("shapes", fixed[: 1 + (i % 2)], t))
-    for t in ladder_trees():
+    ladder = ladder_trees()
+    primary = [t for t in ladder if t[1] == "and" and t[3][-1][1] != "fullver"]     # And(Or(cats), Or(pkgs))
+    others = [t for t in ladder if t not in primary]
+    n_others = chk.n(50, len(others))
+    if os.environ.get("VERIF_C08_CAP"):
+        n_others = min(n_others, 50)
+    for t in primary + (others if n_others >= len(others) else rng.sample(others, n_others)):
         descs.append(("ladder", FULL, t))
     n_random = chk.n(450, 6000)
     if os.environ.get("VERIF_C08_CAP"):      # self-test aid: bound the escalated budget
@@ -521,7 +527,8 @@ def main(chk: Check):
         r = chk.coq_eval("query", IMPORTS, "qinput", cases,
                          ["mismatches run_query cases",
                           "where_ (fun i r => negb (spec_query_ok i r)) cases",
-                          "where_ (fun i r => negb (spec_tuple_ok i r)) cases"], shard=350)
+                          "where_ (fun i r => negb (spec_tuple_ok i r)) cases"], shard=290,
+                         preamble="Definition full_repos : list repo := %s." % clist([c_repo(d) for d in FULL], "repo"))
         if r is not None:
             model_bad, spec_bad, spec_tup = r
         rb = chk.coq_eval("bad", IMPORTS, "N * N", bad_cases, ["mismatches run_bad cases"])
